@@ -290,12 +290,15 @@ pub open spec fn wf_stmt(ss: Seq<LuaScope>) -> bool {
         &&& forall|k: int| 0 <= k < kids(ss, i).len() ==> (#[trigger] kids(ss, i)[k] matches ScopeOrDeclId::Decl(d) ==> st(ss, i) <= pos_of(d) < en(ss, i))
     }
 }
-/// a function statement declares at most one name and starts (keyword `function` / `local`) before its closure
+/// a function statement declares at most one name, in front of its closure, and starts (keyword `function` / `local`) before the closure
 pub open spec fn wf_func(ss: Seq<LuaScope>) -> bool {
     forall|i: int| 0 <= i < ss.len() && #[trigger] is_func(ss, i) ==> {
         &&& forall|k: int| 0 <= k < kids(ss, i).len() ==> (#[trigger] kids(ss, i)[k] matches ScopeOrDeclId::Scope(sid) ==> st(ss, i) < st(ss, sid.id as int))
         &&& forall|a: int, b: int| 0 <= a < kids(ss, i).len() && 0 <= b < kids(ss, i).len()
                 && #[trigger] kids(ss, i)[a] is Decl && #[trigger] kids(ss, i)[b] is Decl ==> a == b
+        // the name comes before the closure
+        &&& forall|a: int, b: int| 0 <= a < kids(ss, i).len() && 0 <= b < kids(ss, i).len()
+                && #[trigger] kids(ss, i)[a] is Decl && #[trigger] kids(ss, i)[b] is Scope ==> a < b
     }
 }
 /// the names of one `local` / assignment statement are listed in source order
